@@ -269,6 +269,11 @@ func (g *G) validationReply(atNs int64, st storedSpec) Reply {
 		} else if g.chance(0.2) {
 			// a 304 that must not be stored: nothing of it may reach the store
 			h = append(h, [2]string{"Cache-Control", pick(g, "no-store", "no-store, max-age=60", "NO-STORE")})
+		} else if g.chance(0.3) {
+			// a 304 whose fields turn the stored response into one that could not have been stored had it
+			// arrived like that: must-understand over a status that is not understood, or no explicit freshness
+			// left on a status that is not heuristically cacheable
+			h = append(h, [2]string{"Cache-Control", pick(g, "must-understand, max-age=3600", "private", "no-cache", "must-understand", "Must-Understand, max-age=60")})
 		}
 		if g.chance(0.5) {
 			h = append(h, [2]string{"X-New", "n1"})
